@@ -29,7 +29,7 @@ FAM3T = docfam.shapes(4, 2)
 
 
 def _text(fam, idx, kv, start):
-    return docfam.render(docfam.fill_scalars(docfam.rename_keys(fam[idx], KEYVARS[kv]), start=start))
+    return docfam.render(docfam.fill_scalars(docfam.rename_keys_below(fam[idx], KEYVARS[kv]), start=start))
 
 
 def same(a, b):
@@ -48,6 +48,8 @@ def same(a, b):
 
 def _check(texts):
     """concrete differential step (runs untraced: nothing symbolic can reach it)"""
+    from engine import symlib
+    symlib.LAST.clear()
     docs = [pyyaml.safe_load(t) for t in texts]
     exp_err = None
     expected = None
